@@ -679,8 +679,12 @@ func StuckGoroutines(d1, d2 string) []string {
 			if !strings.HasPrefix(head, "goroutine ") {
 				continue
 			}
-			if !(strings.Contains(head, "[chan send") || strings.Contains(head, "[sync.Mutex.Lock") || strings.Contains(head, "[sync.RWMutex.Lock") ||
-				strings.Contains(head, "[sync.RWMutex.RLock") || strings.Contains(head, "[semacquire")) {
+			blocked := strings.Contains(head, "[chan send") || strings.Contains(head, "[sync.Mutex.Lock") || strings.Contains(head, "[sync.RWMutex.Lock") ||
+				strings.Contains(head, "[sync.RWMutex.RLock")
+			if strings.Contains(head, "[semacquire") && (strings.Contains(g, "sync.(*Mutex).Lock") || strings.Contains(g, "sync.(*RWMutex).")) {
+				blocked = true // a mutex wait on older runtimes; WaitGroup.Wait (idle by design) is not
+			}
+			if !blocked {
 				continue
 			}
 			if !strings.Contains(g, "github.com/aukilabs/hagall/") && !strings.Contains(g, "github.com/aukilabs/hagall-common/websocket") {
